@@ -100,3 +100,53 @@ def obfuscate(data: bytes, key: bytes) -> bytes:
 def deobfuscate(data: bytes) -> bytes:
     key, body = data[:4], data[4:]
     return obfuscate(body, key)[4:]
+
+
+# ---- marked encoding (C02): where the length/count prefixes and string contents are -------------------
+
+def enc_prim_marked(tname, value, layout, subtype, base, marks):
+    """like enc_prim, appending (kind, absolute offset, extra) to marks"""
+    if tname == 'string':
+        raw = value.encode('utf-8')
+        marks.append(('len', base, len(raw)))
+        marks.append(('str', base + 4, len(raw)))
+        return struct.pack('<I', len(raw)) + raw
+    if tname == 'bytearr':
+        marks.append(('len', base, len(value)))
+        return struct.pack('<I', len(value)) + bytes(value)
+    if tname == 'array':
+        marks.append(('count', base, len(value)))
+        out = struct.pack('<I', len(value))
+        for item in value:
+            out += enc_prim_marked(subtype, item, layout, None, base + len(out), marks)
+        return out
+    if tname.startswith('record:'):
+        return enc_fields_marked(layout.records[tname[7:]], value, layout, base, marks)
+    return enc_prim(tname, value, layout, subtype)
+
+
+def enc_fields_marked(fields, values, layout, base, marks):
+    out = b''
+    for f in fields:
+        if not included(f, values):
+            continue
+        out += enc_prim_marked(f['type'], values[f['name']], layout, f.get('subtype'), base + len(out), marks)
+    return out
+
+
+def encode_body_marked(layout: Layout, key: str, values: dict):
+    """(uncompressed body bytes, marks relative to the body start)"""
+    marks: list = []
+    body = enc_fields_marked(layout.classes[key]['fields'], values, layout, 0, marks)
+    return body, marks
+
+
+def frame(layout: Layout, key: str, body: bytes, compress=None) -> bytes:
+    """wraps a (possibly mutated) body into a frame with a *correct* outer length prefix"""
+    c = layout.classes[key]
+    if compress is None:
+        compress = c['compressed']
+    if compress:
+        body = zlib.compress(body)
+    mid = struct.pack('<B' if c['id_width'] == 1 else '<I', c['message_id'])
+    return struct.pack('<I', len(mid) + len(body)) + mid + body
